@@ -45,6 +45,11 @@ func (x *extractor) values(terms []string) map[string]string {
 	}
 	// heap components first touched by the extraction are declared here
 	var extra []string
+	for _, d := range x.vc.sortDecls {
+		if !strings.Contains(x.script, d) {
+			extra = append(extra, d)
+		}
+	}
 	for _, d := range x.vc.constDecls {
 		if !strings.Contains(x.script, d) {
 			extra = append(extra, d)
